@@ -344,6 +344,19 @@ func applyMutation(b []byte, m plan.Mutation) []byte {
 				}
 			}
 		}
+	case "cutfield":
+		// truncate 0..3 bytes into a chosen field (the places where a
+		// truncation is easiest to mistake for a clean end)
+		if f, ok := findField(fs, m.Field, m.Block); ok {
+			d := m.Byte
+			if d < 0 {
+				d = -d
+			}
+			at := f.Off + d%4
+			if at >= 1 && at < len(b) {
+				b = b[:at]
+			}
+		}
 	case "cutrand":
 		if len(b) > 1 {
 			by := m.Byte
